@@ -73,15 +73,28 @@ def build_dag(n, edges, names=NAMES, cls=None, order=None):
     nodes = list(names[:n])
     if order is not None:
         nodes = [nodes[i] for i in order]
-    for x in nodes:
-        g.add_node(x)
     edges = list(edges)
+    # isolated nodes sometimes arrive LAST, by a direct add_node on warm caches with no mutation after it
+    touched = {names[i] for e in edges for i in e}
+    late = [x for x in nodes if x not in touched] if (n + 2 * len(edges)) % 3 == 0 and edges else []
+    for x in nodes:
+        if x not in late:
+            g.add_node(x)
     for k, (i, j) in enumerate(edges):
         if k == len(edges) - 1 and len(edges) >= 2:
             # interactions BEFORE the last edge goes in: a later successful mutation must still reset every cache
             stress(g, ('dag-pre', n, tuple(edges)))
-        g.add_edge(names[i], names[j])
+        if (n + k + len(edges)) % 3 == 0:
+            g.add_edge(names[i], names[j], edge_type='->')          # the edge type spelled as a plain string
+        else:
+            g.add_edge(names[i], names[j])
     stress(g, ('dag', n, tuple(edges)))
+    g = reroute(g, ('dag', n, tuple(edges)))[0]
+    if late:
+        _warm(g)
+        for x in late:
+            g.add_node(x)
+    query_noise(g, ('dag', n, tuple(edges)))
     return g
 
 
@@ -96,9 +109,10 @@ def build_mixed(nodes, typed_edges, cls=None, validate=True):
     for k, (s, d, t) in enumerate(typed_edges):
         if validate and k == len(typed_edges) - 1 and len(typed_edges) >= 2:
             stress(g, ('mixed-pre', tuple(nodes), tuple(typed_edges)))
-        g.add_edge(s, d, edge_type=EdgeType(t), validate=validate)
+        g.add_edge(s, d, edge_type=EdgeType(t) if (k + len(nodes)) % 3 else t, validate=validate)
     if validate:
         stress(g, ('mixed', tuple(nodes), tuple(typed_edges)))
+        g = reroute(g, ('mixed', tuple(nodes), tuple(typed_edges)))[0]
     return g
 
 
@@ -144,12 +158,44 @@ def brute_descendants(nodes, edges):
 # cache bugs to the query lanes (rejected cycle-closing edge, partially failing bulk adder, warm caches in between)
 # ----------------------------------------------------------------------------------------------------------------
 
+def reroute(g, key):
+    """deterministic in `key`: sometimes the lane gets the same graph after a trip through JSON text (edge types and
+    variable types then arrive as plain strings, caches are cold, indexes are rebuilt in dictionary order) or through
+    copy(); the result is used only when it has the nodes and typed edges of `g`.  Returns (graph, tags)."""
+    import hashlib
+    import json
+    h = int(hashlib.sha1(repr(('reroute', key)).encode()).hexdigest(), 16)
+    if h % 5 > 1:
+        return g, []
+
+    def shape(x):
+        def t(e):
+            v = e.get_edge_type()
+            return v.value if hasattr(v, 'value') else str(v)
+        return x.get_node_names(), sorted((e.source.identifier, e.destination.identifier, t(e)) for e in x.get_edges())
+    try:
+        h2 = type(g).from_dict(json.loads(json.dumps(g.to_dict()))) if h % 5 == 0 else g.copy()
+        if shape(h2) != shape(g):
+            return g, ['route:changed-the-graph']
+    except Exception:  # noqa: BLE001 - a graph the route cannot carry (entered with validate=False, odd metadata)
+        return g, []
+    stress(h2, ('after-reroute', key))
+    return h2, ['route:json' if h % 5 == 0 else 'route:copy']
+
+
 def _warm(g):
     for f in (g.is_dag, g.to_networkx, lambda: g.adjacency_matrix, lambda: g.identifier):
         try:
             f()
         except Exception:  # noqa: BLE001
             pass
+    if hasattr(g, 'get_minimal_graph'):
+        for f in (lambda: g.variables, g.is_minimal_graph, g.is_stationary_graph, g.get_minimal_graph,
+                  lambda: g.adjacency_matrices, g.get_summary_graph):
+            try:
+                f()
+            except Exception:  # noqa: BLE001
+                pass
 
 
 def stress(g, key):
@@ -200,7 +246,9 @@ def stress(g, key):
     if directed and h // 17 % 2:
         a, b = directed[h // 19 % len(directed)]
         try:
-            g.change_edge_type(a, b, EdgeType.UNDIRECTED_EDGE)
+            other = [EdgeType.UNDIRECTED_EDGE, EdgeType.UNKNOWN_DIRECTED_EDGE, EdgeType.BIDIRECTED_EDGE,
+                     EdgeType.UNDIRECTED_EDGE, EdgeType.UNKNOWN_EDGE, EdgeType.UNKNOWN_UNDIRECTED_EDGE][h // 31 % 6]
+            g.change_edge_type(a, b, other)
             for f in (g.to_networkx, g.to_gml_string, lambda: g.adjacency_matrix, g.to_numpy, g.is_dag):
                 try:
                     f()
@@ -208,10 +256,27 @@ def stress(g, key):
                     pass
                 if h // 23 % 2:
                     break
-            g.change_edge_type(a, b, EdgeType.DIRECTED_EDGE)
+            if h // 29 % 2:
+                _warm(g)                       # every memoised answer is taken while the graph is mixed
+            g.change_edge_type(a, b, EdgeType.DIRECTED_EDGE if h // 37 % 3 else '->')
             done.append('mixed-detour')
         except Exception:  # noqa: BLE001
             done.append('detour-raised')
+    # 4. a node of a new variable comes and goes (with an edge into the graph), every memoised answer taken while it is
+    #    there: removal must leave no trace in any index or cache
+    if h // 41 % 2:
+        ghost = 'zq detour lag(n=9)' if hasattr(g, 'get_minimal_graph') else 'zq detour'
+        try:
+            if not g.node_exists(ghost):
+                if names and h // 43 % 2:
+                    g.add_edge(ghost, names[h // 47 % len(names)])
+                else:
+                    g.add_node(ghost)
+                _warm(g)
+                (g.delete_node if h // 53 % 2 else g.remove_node)(ghost)
+                done.append('node-came-and-went')
+        except Exception:  # noqa: BLE001
+            done.append('ghost-raised')
     if h // 13 % 2:
         done += export_abuse(g)
     return done
@@ -238,6 +303,9 @@ def export_abuse(g):
 def _abuse_nx(n):
     nodes = list(n.nodes)
     n.add_edge('__ghost_a', '__ghost_b')
+    if len(nodes) >= 2:
+        n.add_edge(nodes[-1], nodes[-2])          # (in a DiGraph: a two-cycle in the caller's copy)
+        n.add_edge(nodes[-2], nodes[-1])
     if nodes:
         n.remove_node(nodes[0])
 
@@ -321,6 +389,37 @@ def query_noise(g, key):
                     f()
                 except Exception:  # noqa: BLE001
                     pass
+    # structural queries (read-only, some memoise or walk the per-node edge lists): ancestors / descendants and their
+    # sub-graphs, paths, d-separation, the identification helpers
+    real = names[:-1]
+    if h % 3 == 1 and len(real) <= 9:
+        from cai_causal_graph import identify_utils as _iu
+        picks = [real[(h // 7 + 2 * k) % len(real)] for k in range(min(3, len(real)))]
+        for a in picks:
+            for f in (lambda: g.get_ancestors(a), lambda: g.get_descendants(a), lambda: g.get_ancestral_graph(a),
+                      lambda: g.get_descendant_graph(a), lambda: g.get_parents_graph(a), lambda: g.get_children_graph(a),
+                      lambda: _iu.identify_markov_boundary(g, a)):
+                try:
+                    f()
+                except Exception:  # noqa: BLE001
+                    pass
+        for i, a in enumerate(picks):
+            for b in picks[i + 1:]:
+                for f in (lambda: g.directed_path_exists(a, b), lambda: g.directed_path_exists(b, a),
+                          lambda: g.get_all_causal_paths(a, b), lambda: g.get_nodes_between(a, b),
+                          lambda: g.is_ancestor(a, b), lambda: g.get_common_ancestors(a, b),
+                          lambda: g.get_common_descendants(a, b), lambda: g.is_d_separated(a, b, set()),
+                          lambda: _iu.identify_confounders(g, a, b), lambda: _iu.identify_instruments(g, a, b),
+                          lambda: _iu.identify_mediators(g, a, b)):
+                    try:
+                        f()
+                    except Exception:  # noqa: BLE001
+                        pass
+        for f in (g.get_topological_order, lambda: _iu.identify_colliders(g)):
+            try:
+                f()
+            except Exception:  # noqa: BLE001
+                pass
     for f in (g.get_inputs, g.get_outputs, g.is_dag, g.to_networkx, lambda: g.adjacency_matrix, lambda: g.identifier,
               g.to_dict, lambda: hash(g), lambda: repr(g), g.get_edge_pairs,
               lambda: g.get_nodes_at_lag(-9) if hasattr(g, 'get_nodes_at_lag') else None,
